@@ -34,6 +34,9 @@ func (m *xpeerModel) Enabled() []string {
 	for i := range m.x.socks {
 		for j := range m.remotes {
 			evs = append(evs, fmt.Sprintf("check:%d:%d:plain", i, j), fmt.Sprintf("check:%d:%d:uc", i, j))
+			if m.cfg.Extra == "nomination-values" {
+				evs = append(evs, fmt.Sprintf("check:%d:%d:nom1", i, j), fmt.Sprintf("check:%d:%d:nom2", i, j))
+			}
 		}
 	}
 	for _, d := range m.pendingOut() {
@@ -70,7 +73,11 @@ func (m *xpeerModel) Apply(ev string) {
 	case "check":
 		i, _ := strconv.Atoi(f[1])
 		j, _ := strconv.Atoi(f[2])
-		m.send(m.x.socks[i], m.remotes[j].addr.String(), m.peerRequest(peerReqOpts{uc: f[3] == "uc", nom: -1, prio: int64(1000 + 10*j)}))
+		nom := -1
+		if strings.HasPrefix(f[3], "nom") {
+			nom, _ = strconv.Atoi(f[3][3:])
+		}
+		m.send(m.x.socks[i], m.remotes[j].addr.String(), m.peerRequest(peerReqOpts{uc: f[3] != "plain", nom: nom, prio: int64(1000 + 10*j)}))
 	case "answer":
 		seq, _ := strconv.Atoi(f[1])
 		idx := m.find(seq)
@@ -170,6 +177,7 @@ func checkC03(c *runCtx) {
 	specs := []sp{
 		{"X full controlling vs scripted peer", "xpeer", soloCfg{Role: "controlling", Locals: 2, Remotes: 2, PrioL: prL, PrioR: prR, Depth: depth}},
 		{"X full controlled vs scripted peer", "xpeer", soloCfg{Role: "controlled", Locals: 2, Remotes: 2, PrioL: prL, PrioR: prR, Depth: depth}},
+		{"X full controlled vs scripted peer that also uses nomination values", "xpeer", soloCfg{Role: "controlled", Locals: 1, Remotes: 2, PrioL: prL, PrioR: prR, Depth: depth, Extra: "nomination-values"}},
 		{"X lite controlled vs scripted peer", "xpeer", soloCfg{Role: "controlled", Lite: true, Locals: 2, Remotes: 2, PrioL: prL, PrioR: prR, Depth: depth}},
 		{"X lite controlled + use-candidate priority check vs scripted peer", "xpeer", soloCfg{Role: "controlled", Lite: true, UCPrio: true, Locals: 2, Remotes: 2, PrioL: prL, PrioR: prR, Depth: depth}},
 		{"X lite controlling vs scripted peer", "xpeer", soloCfg{Role: "controlling", Lite: true, Locals: 2, Remotes: 2, PrioL: prL, PrioR: prR, Depth: depth - 1}},
